@@ -143,7 +143,13 @@ def run(ctx):
                 'antijoin/lookupjoin (+ crossjoin) on the real code vs the model: header exact, data rows as key groups in order '
                 'with the multiset inside each group; exact row order recorded. Non-trivial: both sides non-empty.')
     ctx.assumptions += ['itertools.groupby groups adjacent equal keys; stack() squares rows up; sort as in C05']
-    ctx.prove(["PetlProofs.Props.C06"], REQUIRED)
+    from translators import fingerprints as _fp
+    try:
+        _fpi = _fp.generate()
+        ctx.bridge('translator: fingerprints of the petl functions the hand-written models mirror (%d bodies)' % _fpi['names'], True)
+    except Exception as e:   # noqa
+        ctx.bridge('translator: source fingerprints extracted', False, repr(e))
+    ctx.prove(["PetlProofs.Props.C06", 'PetlProofs.Snapshot.C06'], REQUIRED + ['Petl.Snapshot.C06_sources_as_validated'])
     rng = ctx.rng
     n = 2500 if ctx.thorough() else 350
     lines, metas = [], []
